@@ -25,7 +25,7 @@ namespace CaddyModel.C15
 #guard constTexts.all (fun p => p.1 == str p.2)
 #guard defaultCtPats == defaultCtPatTexts.map str
 #guard cfConstTexts.all (fun p => p.1 == str p.2)
-#guard canonKey (str "content-TYPE") == kCT && canonKey kCT == kCT && canonKey (str "x-a1-b") == str "X-A1-B"
+#guard canonKey (str "content-TYPE") == kCT && canonKey kCT == kCT && canonKey (str "x-a1-b") == str "X-A1-B" && canonKey (str "a/b") == str "a/b"
 
 def asciiOk (b : Bytes) : Bool := b.all (fun c => c == 9 || (32 ≤ c && c ≤ 126))
 
@@ -58,7 +58,7 @@ def parseMatcher (s : String) : Option Matcher :=
   | ["c", codes, pats] => do
     let cs ← if codes == "*" then some none
       else if codes == "_" then some (some [])
-      else (codes.splitOn ",").mapM parseNat |>.map some
+      else (codes.splitOn ",").mapM (fun c => (parseNat c).map Int.ofNat) |>.map some
     let hs ← if pats == "*" then some []
       else if pats == "_" then some [(kCT, some [])]
       else (pats.splitOn ",").mapM (fun p => (Hex.decode p).bind (fun b => if b.isEmpty then none else some b))
